@@ -12,6 +12,7 @@ require (
 	github.com/cosmos/ibc-go/v10 v10.0.0
 	github.com/cosmos/interchain-security/v7 v7.0.0
 	github.com/golang/mock v1.6.0
+	github.com/rs/zerolog v1.34.0
 	pgregory.net/rapid v1.3.0
 )
 
@@ -32,6 +33,7 @@ require (
 	cosmossdk.io/errors v1.0.2 // indirect
 	cosmossdk.io/schema v1.0.0 // indirect
 	cosmossdk.io/x/evidence v0.2.0-rc.2 // indirect
+	cosmossdk.io/x/feegrant v0.2.0-rc.2 // indirect
 	cosmossdk.io/x/tx v0.14.0-rc.1 // indirect
 	cosmossdk.io/x/upgrade v0.2.0-rc.2 // indirect
 	filippo.io/edwards25519 v1.1.0 // indirect
@@ -148,7 +150,6 @@ require (
 	github.com/rcrowley/go-metrics v0.0.0-20201227073835-cf1acfcdf475 // indirect
 	github.com/rogpeppe/go-internal v1.14.1 // indirect
 	github.com/rs/cors v1.11.1 // indirect
-	github.com/rs/zerolog v1.34.0 // indirect
 	github.com/sagikazarmark/locafero v0.7.0 // indirect
 	github.com/sourcegraph/conc v0.3.0 // indirect
 	github.com/spf13/afero v1.12.0 // indirect
